@@ -650,3 +650,75 @@ func c03R8width(ic *IC, r *Report) {
 		r.Errorf("R03.8: only %d rounding accessors found in the representability function (float32, float64, complex64 x2, complex128 x2 expected)", n)
 	}
 }
+
+func init() {
+	ruleText["R03.15"] = "the implicit repetition of a constant specification (AST builder) happens once all the names of the specification are known and duplicates every expression of the previous specification: the duplication is guarded by a test of the number of names and loops over the previous right-hand sides"
+}
+
+// c03R15: found D87 (const ( a, b = 1, 2; c, d ) was rejected with "constant definition loop").
+func c03R15(ic *IC, r *Report) {
+	info := ic.Info
+	fi := ic.fn(r, "Interpreter.ast")
+	if fi == nil {
+		return
+	}
+	nleft := ic.field("node", "nleft")
+	nright := ic.field("node", "nright")
+	n := 0
+	ast.Inspect(fi.Decl.Body, func(m ast.Node) bool {
+		ifs, ok := m.(*ast.IfStmt)
+		if !ok {
+			return true
+		}
+		// the implicit-repetition branch: condition mentions constDecl and nright == 0, body calls dup
+		mentionsConst, zeroRight := false, false
+		ast.Inspect(ifs.Cond, func(q ast.Node) bool {
+			if id, ok := q.(*ast.Ident); ok {
+				if c, ok := info.Uses[id].(*types.Const); ok && c.Name() == "constDecl" {
+					mentionsConst = true
+				}
+			}
+			if be, ok := q.(*ast.BinaryExpr); ok && be.Op == token.EQL && selField(info, be.X) == nright {
+				zeroRight = true
+			}
+			return true
+		})
+		var dups []*ast.CallExpr
+		for _, c := range allCalls(ifs.Body) {
+			if f, ok := calleeOf(info, c).(*types.Func); ok && f.Name() == "dup" && f.Pkg() == ic.Pk.Types {
+				dups = append(dups, c)
+			}
+		}
+		if !mentionsConst || !zeroRight || len(dups) == 0 {
+			return true
+		}
+		n++
+		allNames := false
+		ast.Inspect(ifs.Cond, func(q ast.Node) bool {
+			if be, ok := q.(*ast.BinaryExpr); ok && be.Op == token.EQL {
+				l, rr := types.ExprString(be.X), types.ExprString(be.Y)
+				if (strings.HasPrefix(l, "len(") && selField(info, be.Y) == nleft) || (strings.HasPrefix(rr, "len(") && selField(info, be.X) == nleft) {
+					allNames = true
+				}
+			}
+			return true
+		})
+		inLoop := false
+		for _, c := range dups {
+			for _, p := range enclosingPath(ifs.Body, c) {
+				switch p.(type) {
+				case *ast.RangeStmt, *ast.ForStmt:
+					inLoop = true
+				}
+			}
+		}
+		r.Check(allNames, "R03.15", "ast/implicit-repetition/after-the-last-name", ic.pos(ifs.Pos()), "the repetition waits for all the names of the specification",
+			"the AST builder repeats the previous constant specification as soon as the first name of the implicit one is met ("+types.ExprString(ifs.Cond)+"): with several names the repeated expression lands between the names and the specification is rejected (const ( a, b = 1, 2; c, d ): constant definition loop)")
+		r.Check(inLoop, "R03.15", "ast/implicit-repetition/every-expression-repeated", ic.pos(ifs.Pos()), "every expression of the previous specification is duplicated",
+			"the AST builder duplicates one expression of the previous constant specification only (no loop over its right-hand sides): const ( a, b = 1, 2; c, d ) has one value for two names")
+		return true
+	})
+	if n == 0 {
+		r.Errorf("R03.15: the implicit repetition of constant specifications was not found in the AST builder")
+	}
+}
